@@ -5,7 +5,7 @@ import re
 from ..astutil import norm, const, NO, compare, tail, names
 from ..index import AnalysisError, walk_own, builtin_exc
 from ..absint import Explorer, Inst, UNKNOWN
-from .common import (site, key, calls_to, method_calls, nodes_with, guard_check, stores_to_name, carrying_stores)
+from .common import (site, key, calls_to, method_calls, nodes_with, guard_check, stores_to_name, carrying_stores, sync_accept_sites)
 
 HANDLES = ["gunicorn.workers.sync.SyncWorker.handle", "gunicorn.workers.gthread.ThreadWorker.handle", "gunicorn.workers.base_async.AsyncWorker.handle"]
 BASE = "gunicorn.workers.base.Worker"
@@ -199,8 +199,13 @@ def r1_r2_r5(ctx):
                 ctx.check("C05.R2", f.name == "handle_request", key(f, "app-call"), site(f, c), "the WSGI application is called outside handle_request", "app called only from handle_request")
     ctx.floor("C05.R2", "application call sites", n, 3)
     # sync: accept -> handle directly
-    f = ctx.fn(repo.func("gunicorn.workers.sync.SyncWorker.accept"))
-    ctx.check("C05.R5", bool(calls_to(repo, f, "gunicorn.workers.sync.SyncWorker.handle")), key(f, "accept-handle"), site(f), "SyncWorker.accept does not dispatch to handle()", "accept -> handle")
+    sites = sync_accept_sites(repo)
+    ctx.need(sites, "C05.R5: the sync worker never accepts a connection")
+    for f, sn, st in sites:
+        ctx.fn(f)
+        hc = [n for c in calls_to(repo, f, "gunicorn.workers.sync.SyncWorker.handle") for n in nodes_with(f, c)]
+        okk = bool(hc) and f.cfg.must_pass(sn, hc, follow_exc=False) is None
+        ctx.check("C05.R5", okk, key(f, "accept-handle"), site(f, sn), "an accepted connection is not handed to handle() on every normal path of %s" % f.short, "accept -> handle")
     f = ctx.fn(repo.func("gunicorn.workers.gthread.ThreadWorker.enqueue_req"))
     sub = [c for c in method_calls(f, "submit") if c.args and repo.resolve(f.module, f, c.args[0]) == "self.handle"]
     ctx.check("C05.R5", bool(sub), key(f, "pool-entry"), site(f), "the thread pool entry point is not self.handle", "tpool.submit(self.handle, conn)")
